@@ -49,6 +49,16 @@ func init() {
 					rs = append(rs, thin(comparatorRanges(eco, bounds), 2)...)
 				}
 				rs = append(rs, thin(shorthandRanges(eco), 2)...)
+				// shorthand ranges whose operand carries a pre-release take a path of their own in
+				// several parsers: always present, followed by a plain shorthand range as the unrelated call
+				for _, r := range shorthandRanges(eco) {
+					if strings.Contains(r, "-{") && !has(rs, r) {
+						rs = append(rs, r)
+					}
+				}
+				if sh := shorthandRanges(eco); len(sh) > 0 && !has(rs, sh[0]) {
+					rs = append(rs, sh[0])
+				}
 				if len(rs) == 0 {
 					continue
 				}
@@ -60,6 +70,21 @@ func init() {
 					for _, r := range rs {
 						out = append(out, &Config{ID: fmt.Sprintf("C19/hist/%s/%s|%s", eco, a, r), Pkg: zzhPkg, Func: "C19Hist",
 							Args: []ArgSpec{ArgStr(eco), ArgTmpl(a), ArgTmpl(vs[len(vs)-1]), ArgTmpl(r), ArgTmpl(third), ArgTmpl(rs[len(rs)-1])}})
+					}
+				}
+				// a range next to spellings of itself that differ in insignificant white space (after the
+				// comparator, around the separator): each keeps its own text and meaning
+				if spec := opsTable[eco]; len(spec.ops) >= 2 && len(spec.ands) > 0 && len(bounds) > 0 {
+					b := bounds[0]
+					sep := spec.ands[len(spec.ands)-1]
+					lo, hi := ">=", "<"
+					base := lo + b + sep + hi + b
+					variants := []string{lo + " " + b + sep + hi + b, lo + b + sep + " " + hi + b, lo + b + " " + sep + hi + b, lo + b + sep + hi + " " + b}
+					for _, v2 := range variants {
+						for _, pr := range [][2]string{{base, v2}, {v2, base}} {
+							out = append(out, &Config{ID: fmt.Sprintf("C19/hist/%s/spellings/%s|%s", eco, pr[0], pr[1]), Pkg: zzhPkg, Func: "C19Spell",
+								Args: []ArgSpec{ArgStr(eco), ArgTmpl(vs[0]), ArgTmpl(pr[0]), ArgTmpl(pr[1])}})
+						}
 					}
 				}
 			}
@@ -99,7 +124,7 @@ func init() {
 			return out
 		},
 		Bounds: func(tier string) string {
-			return "per ecosystem 4x4 (quick) / 8x8 (thorough) version templates x 6 / 16 range templates (comparator and shorthand forms), all operations NewVersion, NewVersionRange, Compare, Contains, String after the epoch; vers.Contains on 5 range shapes per scheme; history independence: the same ecosystem calls before and after unrelated calls and on freshly parsed values, vers.Contains before and after a call with the same constraint text under another scheme (8 scheme pairs quick, all 110 thorough); schedules are not enumerated (reduction to write-freedom); correctly synchronised shared mutable state would be reported, conservatively, as a shared write"
+			return "per ecosystem 4x4 (quick) / 8x8 (thorough) version templates x 6 / 16 range templates (comparator and shorthand forms), all operations NewVersion, NewVersionRange, Compare, Contains, String after the epoch; vers.Contains on 5 range shapes per scheme; history independence: the same ecosystem calls before and after unrelated calls and on freshly parsed values, a two-comparator range next to four spellings of itself that differ in one insignificant space (String() of each must be its own text), vers.Contains before and after a call with the same constraint text under another scheme (8 scheme pairs quick, all 110 thorough); schedules are not enumerated (reduction to write-freedom); correctly synchronised shared mutable state would be reported, conservatively, as a shared write"
 		},
 		Assume: []string{"regexp.Regexp, and the standard library functions modelled by intrinsics, are safe for concurrent use as documented",
 			"reduction: if no call writes memory reachable by another call and every call is deterministic, all interleavings are equivalent to a sequential run"},
